@@ -25,6 +25,9 @@ CHECKS = {
  "C06": ("exploration", "shuttle random/PCT schedule sampling over feature-gated sync shims + Miri many-seeds",
          "Adder/reader programs over a fresh AtomicArena with pre-fills at the bucket boundaries (0/128/384): refs pairwise distinct, get() reads back the added element at once / after publication / after join, len() monotone and exact at the end, every element dropped exactly once; 7k shuttle executions + 6 Miri seeds quick.",
          "SC interleavings only under shuttle; 2-3 adders x <=3 additions; Miri with -Zmiri-tree-borrows (Stacked Borrows rejects AtomicArena::drop's pointer narrowing, which no listed property speaks about).", "5/C06"),
+ "C07": ("exploration", "property-based testing (grammar generator, layout generator, token / character mutants, arbitrary text) + libFuzzer campaign with the oracle inside the target",
+         "Valid literals in random layouts, exotic whitespace, hostile values (out-of-range ints, floats, lists), 1-3-step mutants and arbitrary Unicode text: parse_iso_literal returns Ok or Err without panicking; every span in the result, every semantic token and the diagnostic location satisfies start <= end <= len on character boundaries; semantic tokens strictly increase and do not overlap. 150k cases quick, 3M + 10M libFuzzer executions thorough.",
+         "Inputs are valid UTF-8 (the API takes a String); a build without debug assertions is not run separately (the fuzz target is opt-level 2 with debug assertions).", "5/C07"),
  "C08": ("exploration", "property-based testing over generated projects (tape-driven model-first generator, proptest shrinking), each compiled by a fresh process of the real CLI; exit status / signal oracle",
          "Generated valid projects of five feature tiers, single-fault mutants, raw token damage of schema / extension / sources and cyclic client fields are compiled by fresh isograph_cli processes; the process must exit 0 (iso.ts written) or 1 (diagnostics), never panic, abort or be killed by a signal. 1k projects quick, 80k thorough; recorded crash families are tolerated by root-cause signature only.",
          "The watch-mode clause is covered by C20's driver (panics there carry a C08-style signature); isograph_cli is the debug build of the working tree; a process exceeding 120 s is inconclusive.", "5/C08"),
@@ -40,15 +43,33 @@ CHECKS = {
  "C16": ("exploration", "property-based testing with single-fault mutation operators decided by the project model; accept/reject oracle on in-process compiles",
          "Valid programs of the core/client-graph tiers must compile without diagnostics; mutants violating exactly one rule of the statement (10 operators) at a model-chosen location must be rejected with a diagnostic. 6k programs quick, 300k thorough.",
          "The 'generated language subset' is what G-PROJECT emits in those tiers (written into the evidence); list-typed variables are excluded by construction (recorded finding); compiler crashes are C08's business.", "5/C16"),
+ "C17": ("exploration", "stateful property-based testing over compile histories (in-process sessions, fresh states and fresh CLI processes), byte-exact snapshot oracle",
+         "Histories: P0 compiled, then 1-5 further compiles with at least one invalid program (ten error kinds), in batch mode and as watch-style recompiles, from empty / missing / junk initial directories; the file map of the artifact directory before and after every compile that reported diagnostics must be identical. 480 histories quick, 16000 thorough.",
+         "Write-phase I/O errors are outside C17's domain (C18/C19); a missing schema makes create_config panic before anything is written (labelled only); mtime-only rewrites are labelled, not failed.", "5/C17"),
+ "C18": ("exploration", "property-based testing of artifact-set sequences on a real temporary directory (unit level) + stateful testing of edit-script histories end to end; directory-tree model oracle",
+         "Unit: 1-6 related artifact sets per case through get_file_system_operations + apply_file_system_operations on directories that start missing, empty, holding a previous set or junk; end to end: edit-script histories through live sessions, fresh states and CLI processes. After every successful application / compile the regular files and their bytes equal the artifact set; later compiles of a session write only changed artifacts. 6000 unit cases + 480 histories quick.",
+         "Symlinks and read-only leftovers are excluded; left-over empty directories are a label, not a failure.", "5/C18"),
+ "C19": ("fault_enumeration", "exhaustive enumeration of the failing operation index of every generated plan x fault flavour x recovery flavour through the set_fault_plan hook",
+         "For generated (initial directory, S0, edit, later edits) cases every operation index of the interrupted plan fails (error before the operation / truncated write / state dropped = process killed), followed by zero or more edits and a recovery compile in the same session, a fresh CompilerState or a fresh CLI process; the directory must equal the artifacts of that compile. 16 base cases (about 1100-1500 scenarios) quick, 640 base cases (55k scenarios) thorough.",
+         "A fault is one failing operation (no multi-fault sequences, no failure inside remove_dir_all); a process kill is modelled as fault + dropped state; operation order inside a plan follows HashMap order, so which prefix an index represents varies between processes; CLI recovery only for first / middle / last index.", "5/C19"),
  "C20": ("exploration", "stateful differential testing over the real inotify watcher + notify-debouncer-full: incremental watch state vs a fresh compile after every window of file-system actions",
          "Generated histories of 1-6 windows of create / modify / delete / rename / move actions on files and folders (prefix-sibling folders, non-source and binary files, schema and extension edits, GCs) are applied to a real directory watched by the same debouncer the product builds; the collected events go through categorize_and_filter_events, update_sources and compile; after every window artifacts and diagnostics must equal a fresh CompilerState's and the watcher must not stop (Err from update_sources) or panic. 1600 histories quick, 48000 thorough.",
          "Linux inotify as observed in this sandbox only; events of a window are processed as one batch; timing never decides a verdict (sentinel barrier, retries, else inconclusive); four recorded findings are excluded by construction and counted; stray files in the artifact directory are C18's business.", "5/C20"),
  "C21": ("exploration", "stateful differential testing: live LspState vs a fresh server with the buffers opened, and vs a fresh server on the materialised effective contents",
          "Generated histories of didOpen / didChange / didClose notifications, on-disk edits, GCs and queries (diagnostics, semantic tokens, formatting, hover, go-to-definition) over 4 files; every answer must equal the fresh servers' answers. 10000 histories (24k queries) quick, 300000 thorough.",
          "ASCII contents; on-disk edits are delivered as synthesized notify events through the product's own categorisation; a handler panic is compared as an answer.", "5/C21"),
+ "C22": ("exploration", "property-based round trip / metamorphic testing (format, re-parse, format again) through the real handler core on a scratch project",
+         "Documents with 1-3 generated literals in random layouts surrounded by non-ASCII text: the edits applied with LSP (UTF-16) semantics replace exactly each literal's text, the re-parsed declaration equals the original modulo positions, and a second formatting pass changes nothing. 4000 documents quick, 150000 thorough.",
+         "Indentation / appearance is not asserted; LSP end-of-line clamping semantics assumed.", "5/C22"),
+ "C23": ("exploration", "property-based differential testing against a reference UTF-8 <-> UTF-16 position converter through the real handler cores on a scratch project",
+         "Generated documents with several literals, multi-line tokens and non-ASCII / astral text before and inside literals: decoded semantic tokens are increasing, non-overlapping and each covers one generator token; formatting-edit, diagnostic and definition ranges equal the reference conversion of the compiler's byte span; hover / definition requests at token positions answer about that token. 8000 documents (572k tokens) quick.",
+         "Lone CR line terminators are not generated; request positions only where unambiguous.", "5/C23"),
  "C24": ("exploration", "property-based testing over generated projects; hand model of the TypeScript conditional/template-literal type of iso.ts, verified against the file's shape on every run",
          "Accepted generated programs whose type/field names are prefixes of one another, with literal headers re-laid-out (whitespace kinds, spaces around the dot, leading whitespace), and the four checked-in projects: the first overload whose pattern is a prefix of the whitespace-stripped literal must exist and belong to the same declaration. 4k programs quick.",
          "No TypeScript compiler exists offline: tsc's overload resolution is modelled by hand (assumption text in the evidence); if iso.ts stops having the modelled shape the check is inconclusive, not failing.", "5/C24"),
+ "C28": ("exploration", "differential property-based testing: the plugin's visitor run in-process vs the compiler's parse of the same literal; modules compared through swc codegen",
+         "Accepted literal headers x {commonjs, esmodule} x project / artifact-directory shapes x file depths: classification equals the compiler's, entrypoints import the relative path of <artifact_dir>/__isograph/<Type>/<Name>/entrypoint.ts with Type and Name from the compiler's AST, field / pointer calls become their function argument, other code unchanged. 25000 cases quick, 500000 thorough.",
+         "swc parser / codegen trusted; virtual paths (no file system).", "5/C28"),
  "C29": ("exploration", "differential property-based testing (Appendix-B grammar generators + token-level mutants) against the independent refgql reference; libFuzzer campaign with the same oracle in the thorough tier",
          "Generated executable and type-system documents (June 2018 grammar, SourceCharacters only, ignored tokens inserted freely) and four token-level mutants each: relay accepts iff the reference accepts; accepted trees equal; schema Display -> re-parse equal. 40k texts quick, 1.2M + 3M fuzz executions thorough.",
          "Descriptions relay's tree has no slot for are not compared; inputs whose acceptance depends on the post-2018 number look-ahead restriction are not judged; surrogate escapes excluded; listed findings tolerated by root-cause signature. refgql is hand-written from the spec and self-checked against its generator and relay's fixtures.", "5/C29"),
@@ -58,6 +79,9 @@ CHECKS = {
  "C31": ("exploration", "property-based testing (proptest) against an independent caret-placement oracle",
          "Generated texts x spans on character boundaries are rendered and compared with an independent computation of the start row and of the exact character columns that must carry a caret; 40k cases quick, 2M thorough. Sampling, not proof.",
          "Spans are assumed to lie on character boundaries; the column number is not checked (the statement is about the row and the carets).", "5/C31"),
+ "C32": ("exploration", "exhaustive per-literal offset enumeration over generated literals, typed walk over all resolved-node variants",
+         "For generated accepted literals and every byte offset 0..=len: the returned node and all its ancestors contain the offset, no node returned for another offset lies strictly inside it and contains the offset, and token anchors resolve to the expected node kind. 20000 literals (3.9M offsets) quick.",
+         "The root declaration stands for the whole literal; anchors only at unambiguous offsets.", "5/C32"),
  "C33": ("exploration", "property-based testing (proptest): round trip + exhaustive single-character edit enumeration per generated file",
          "Generated contents with one or more tokens, bare tokens and look-alike signatures are signed; the result must verify, and every single-character substitution/insertion/deletion outside the signature digits (all positions for short files) must not verify.",
          "MD5 collisions are out of scope; nothing is assumed about how the signature is computed or where it is placed.", "5/C33"),
